@@ -37,6 +37,8 @@ type Opts struct {
 	Attrs16   string   `json:"attrs16"`
 	Attrs32   string   `json:"attrs32"`
 	HasOrder  bool     `json:"hasOrder"` // orderSpan/attrs16/attrs32 are set explicitly (an empty string is a valid variant)
+	Init      string   `json:"init"`     // initial dictionary index width: "", "8", "16", "32", "64"
+	Stats     string   `json:"stats"`    // statistics the producer collects: any of "ratio", "producer" (comma separated)
 }
 
 type BatchSpec struct {
@@ -154,6 +156,22 @@ func producerOptions(o Opts, pool memory.Allocator, ob *obsRec) []config.Option 
 		opts = append(opts, config.WithUint32LimitDictIndex())
 	case "64":
 		opts = append(opts, config.WithUint64LimitDictIndex())
+	}
+	switch o.Init {
+	case "8":
+		opts = append(opts, config.WithUint8InitDictIndex())
+	case "16":
+		opts = append(opts, config.WithUint16InitDictIndex())
+	case "32":
+		opts = append(opts, config.WithUint32LinitDictIndex())
+	case "64":
+		opts = append(opts, config.WithUint64InitDictIndex())
+	}
+	if strings.Contains(o.Stats, "ratio") {
+		opts = append(opts, config.WithCompressionRatioStats())
+	}
+	if strings.Contains(o.Stats, "producer") {
+		opts = append(opts, config.WithProducerStats())
 	}
 	if o.Thr != nil {
 		t := *o.Thr
